@@ -27,6 +27,7 @@ EXPLANATION = (
     ' (R7, round 3) the safety traversals are iterative; the flow-safe scan reads bounds as Python numbers, stops and reports with a float tolerance (0 < eps <= 1e-6), reports only windows of positive excess.'
     ' (R4, revised) the stop test of the flow-safe scan is judged only when windows are not recorded under a positive-excess guard; (R8, round 4) C17.R1 / R2 for the reachability caches the pruning reads, and the full-coverage guard of C05.R10.'
     ' (R4, hunt 4) the excess of the flow-safe scan is compared with a tolerance scaled by the magnitude of the values (math.ulp), never with 0 or a constant; an exact assertion on the excess needs exact readers.'
+    ' (R7, hunt 5) the readers of the flow-safe scan apply Fraction() only to values without as_integer_ratio() (np.longdouble survives .item() and Fraction() rejects it).'
 )
 DECIDED = ["mutate/restore pairing of the shared adjacency structure", "lock discipline of the per-worker pools",
            "multiplicity guard and protection-set construction conform to the reviewed description"]
